@@ -185,83 +185,89 @@ Section Send.
       end
     end.
 
-  (* ares_send_query / ares_requeue_query; fuel bounds the re-sends (see send_query_fuel) *)
+  (* ares_requeue_query(query, now, status, inc_try_count = TRUE, dnsrec = NULL, requeue = NULL);
+     [resend] is ares_send_query(NULL, query, now) *)
+  Definition requeue_query (resend : chan -> query -> list Z -> M result)
+             (ch : chan) (q : query) (status : Z) (cbs : list Z) : M result :=
+    r <- remove_from_conn ch q ;;
+    let (ch1, q1) := r in
+    let q2 := mkQuery (q_qid q1) (q_blk q1) (q_rec q1) (q_name q1) (q_all q1) (q_qide q1) (q_tmo q1) (q_cqn q1)
+                      (S (q_try q1)) (if Z.eqb status ARES_SUCCESS then q_err q1 else status) (q_tcp q1) in
+    if Nat.ltb (q_try q2) (e_nservers E * e_tries E) && negb (e_noretry E)
+    then resend ch1 q2 cbs
+    else
+      let st := if Z.eqb (q_err q2) ARES_SUCCESS then ARES_ETIMEOUT else q_err q2 in
+      r <- end_query ch1 q2 st cbs ;;
+      ret (mkRes ARES_ETIMEOUT (r_cbs r) (r_query r) (r_chan r)).
+
+  (* the body of ares_send_query; [resend] is the recursive call made by ares_requeue_query *)
+  Definition send_query_step (resend : chan -> query -> list Z -> M result)
+             (ch : chan) (q : query) (cbs : list Z) : M result :=
+    let att := q_try q in
+    if negb (e_server E att) then end_query ch q ARES_ENOSERVER cbs
+    else
+      (* conn = ares_fetch_connection(); if (conn == NULL) ares_open_connection() *)
+      oc <- match e_reuse E att with
+            | Some i => ret (ARES_SUCCESS, Some i, ch)
+            | None => open_connection ch (q_tcp q) att
+            end ;;
+      let '(ost, oci, ch1) := oc in
+      match oci with
+      | None =>
+        if Z.eqb ost ARES_ECONNREFUSED || Z.eqb ost ARES_EBADFAMILY
+        then requeue_query resend ch1 q ost cbs                 (* server_increment_failures; requeue *)
+        else end_query ch1 q ost cbs                            (* "likely ENOMEM" *)
+      | Some ci =>
+        (* ares_conn_query_write *)
+        w <- group ;;
+        match w with
+        | None => end_query ch1 q ARES_ENOMEM cbs
+        | Some wb =>
+          free (Some wb) ;;;          (* temporaries of the writer; a grown out_buf is the connection's *)
+          let wst := e_write E att in
+          if Z.eqb wst ARES_ENOMEM then end_query ch1 q ARES_ENOMEM cbs
+          else if Z.eqb wst ARES_ECONNREFUSED || Z.eqb wst ARES_EBADFAMILY then
+            (* handle_conn_error closes the connection and requeues every other query on it:
+               outside this model *)
+            errM NOT_MODELLED
+          else if negb (Z.eqb wst ARES_SUCCESS) then requeue_query resend ch1 q wst cbs
+          else
+            (* ares_slist_node_destroy(query->node_queries_by_timeout); ares_slist_insert *)
+            free_opts [q_tmo q] ;;;
+            tn <- group ;;
+            let q1 := mkQuery (q_qid q) (q_blk q) (q_rec q) (q_name q) (q_all q) (q_qide q) tn (q_cqn q)
+                              (q_try q) (q_err q) (q_tcp q) in
+            match tn with
+            | None => end_query ch1 q1 ARES_ENOMEM cbs
+            | Some _ =>
+              let ch2 := mkChan (ch_all ch1) (ch_byqid ch1) (q_qid q :: remove_z (q_qid q) (ch_bytmo ch1))
+                                (ch_conns ch1) (ch_closed ch1) in
+              (* ares_llist_node_destroy(query->node_queries_to_conn); ares_llist_insert_last *)
+              free_opts [option_map snd (q_cqn q1)] ;;;
+              cn <- group ;;
+              match cn with
+              | None =>
+                end_query ch2 (mkQuery (q_qid q1) (q_blk q1) (q_rec q1) (q_name q1) (q_all q1) (q_qide q1)
+                                       (q_tmo q1) None (q_try q1) (q_err q1) (q_tcp q1)) ARES_ENOMEM cbs
+              | Some nb =>
+                let q2 := mkQuery (q_qid q1) (q_blk q1) (q_rec q1) (q_name q1) (q_all q1) (q_qide q1)
+                                  (q_tmo q1) (Some (ci, nb)) (q_try q1) (q_err q1) (q_tcp q1) in
+                let ch3 := mkChan (ch_all ch2) (ch_byqid ch2) (ch_bytmo ch2)
+                                  (upd_conn (ch_conns ch2) ci
+                                     (fun c => mkConn (cn_blk c) (cn_cq c) (cn_out c) (cn_in c) (cn_node c) (cn_sock c)
+                                                      (cn_tcp c) (cn_queries c ++ [(q_qid q, nb)]) (S (cn_total c))))
+                                  (ch_closed ch2) in
+                ret (mkRes ARES_SUCCESS cbs (Some q2) ch3)
+              end
+            end
+        end
+      end.
+
+  (* ares_send_query; fuel bounds the re-sends (send_query_fuel is always enough) *)
   Fixpoint send_query (fuel : nat) (ch : chan) (q : query) (cbs : list Z) : M result :=
     match fuel with
     | 0 => errM OutOfFuel
-    | S fu =>
-      let att := q_try q in
-      let requeue (ch : chan) (q : query) (status : Z) : M result :=
-        (* ares_requeue_query(query, now, status, inc_try_count = TRUE, NULL, NULL) *)
-        r <- remove_from_conn ch q ;;
-        let (ch1, q1) := r in
-        let q2 := mkQuery (q_qid q1) (q_blk q1) (q_rec q1) (q_name q1) (q_all q1) (q_qide q1) (q_tmo q1) (q_cqn q1)
-                          (S (q_try q1)) (if Z.eqb status ARES_SUCCESS then q_err q1 else status) (q_tcp q1) in
-        if Nat.ltb (q_try q2) (e_nservers E * e_tries E) && negb (e_noretry E)
-        then send_query fu ch1 q2 cbs
-        else
-          let st := if Z.eqb (q_err q2) ARES_SUCCESS then ARES_ETIMEOUT else q_err q2 in
-          r <- end_query ch1 q2 st cbs ;;
-          ret (mkRes ARES_ETIMEOUT (r_cbs r) (r_query r) (r_chan r)) in
-      if negb (e_server E att) then
-        r <- end_query ch q ARES_ENOSERVER cbs ;; ret r
-      else
-        (* conn = ares_fetch_connection(); if (conn == NULL) ares_open_connection() *)
-        oc <- match e_reuse E att with
-              | Some i => ret (ARES_SUCCESS, Some i, ch)
-              | None => open_connection ch (q_tcp q) att
-              end ;;
-        let '(ost, oci, ch1) := oc in
-        match oci with
-        | None =>
-          if Z.eqb ost ARES_ECONNREFUSED || Z.eqb ost ARES_EBADFAMILY
-          then requeue ch1 q ost                                (* server_increment_failures; requeue *)
-          else end_query ch1 q ost cbs                          (* "likely ENOMEM" *)
-        | Some ci =>
-          (* ares_conn_query_write *)
-          w <- group ;;
-          match w with
-          | None => end_query ch1 q ARES_ENOMEM cbs
-          | Some wb =>
-            free (Some wb) ;;;                                  (* temporaries of the writer; a grown out_buf is the connection's *)
-            let wst := e_write E att in
-            if Z.eqb wst ARES_ENOMEM then end_query ch1 q ARES_ENOMEM cbs
-            else if Z.eqb wst ARES_ECONNREFUSED || Z.eqb wst ARES_EBADFAMILY then
-              (* handle_conn_error closes the connection and requeues every other query on it:
-                 outside this model *)
-              errM NOT_MODELLED
-            else if negb (Z.eqb wst ARES_SUCCESS) then requeue ch1 q wst
-            else
-              (* ares_slist_node_destroy(query->node_queries_by_timeout); insert *)
-              free_opts [q_tmo q] ;;;
-              tn <- group ;;
-              let q1 := mkQuery (q_qid q) (q_blk q) (q_rec q) (q_name q) (q_all q) (q_qide q) tn (q_cqn q)
-                                (q_try q) (q_err q) (q_tcp q) in
-              match tn with
-              | None => end_query ch1 q1 ARES_ENOMEM cbs
-              | Some _ =>
-                let ch2 := mkChan (ch_all ch1) (ch_byqid ch1) (q_qid q :: remove_z (q_qid q) (ch_bytmo ch1))
-                                  (ch_conns ch1) (ch_closed ch1) in
-                (* ares_llist_node_destroy(query->node_queries_to_conn); insert *)
-                free_opts [option_map snd (q_cqn q1)] ;;;
-                cn <- group ;;
-                match cn with
-                | None =>
-                  end_query ch2 (mkQuery (q_qid q1) (q_blk q1) (q_rec q1) (q_name q1) (q_all q1) (q_qide q1)
-                                         (q_tmo q1) None (q_try q1) (q_err q1) (q_tcp q1)) ARES_ENOMEM cbs
-                | Some nb =>
-                  let q2 := mkQuery (q_qid q1) (q_blk q1) (q_rec q1) (q_name q1) (q_all q1) (q_qide q1)
-                                    (q_tmo q1) (Some (ci, nb)) (q_try q1) (q_err q1) (q_tcp q1) in
-                  let ch3 := mkChan (ch_all ch2) (ch_byqid ch2) (ch_bytmo ch2)
-                                    (upd_conn (ch_conns ch2) ci
-                                       (fun c => mkConn (cn_blk c) (cn_cq c) (cn_out c) (cn_in c) (cn_node c) (cn_sock c)
-                                                        (cn_tcp c) (cn_queries c ++ [(q_qid q, nb)]) (S (cn_total c))))
-                                    (ch_closed ch2) in
-                  ret (mkRes ARES_SUCCESS cbs (Some q2) ch3)
-                end
-              end
-          end
-        end
+    | S fu => send_query_step (send_query fu) ch q cbs
     end.
 
   Definition send_query_fuel : nat := S (e_nservers E * e_tries E).
